@@ -21,7 +21,7 @@ tvars == <<inside, ever, l>>
 Event == Trace[l]
 
 Step ==
-  /\ l <= Len(Trace) /\ l' = l + 1 /\ TLCSet(1, l)
+  /\ l <= Len(Trace) /\ l' = l + 1
   /\ CASE Event.k = "enter" ->
             /\ \A x \in inside : x[1] = Event.job => x[2] = Event.g           \* same run re-entering is fine
             /\ LET ins == inside \cup {<<Event.job, Event.g, Event.full>>}
@@ -36,6 +36,7 @@ Step ==
             /\ inside = {} /\ Event.running = 0 /\ Event.ti = PoolI /\ Event.tf = PoolF
             /\ \A j \in ever : \E i \in 1..Len(Event.results) : Event.results[i] = j
             /\ UNCHANGED <<inside, ever>>
+  /\ TLCSet(1, l)        \* last conjunct: only a line that was consumable moves the high-water mark
 Init == inside = {} /\ ever = {} /\ l = 1 /\ TLCSet(1, 0)
 Spec == Init /\ [][Step]_tvars
 Accepted == TLCGet(1) = Len(Trace)
